@@ -24,7 +24,7 @@ pub fn generate(seed: u64, index: u64, thorough: bool) -> Scenario {
     } else {
         ModelKind::Hand
     };
-    let sizes = if thorough && rng.chance(0.2) { LARGE } else { SMALL };
+    let sizes = if rng.chance(if thorough { 0.2 } else { 0.06 }) { LARGE } else { SMALL };
     let parallel = rng.chance(0.25);
     let start = *rng.pick(&[Start::Near, Start::Mid, Start::Mid, Start::Exact]);
     let noise = *rng.pick(&[0.0, 1e-3, 5e-2]);
